@@ -4,15 +4,24 @@ Each case is a history over a pool of (target, spec) pairs drawn from the non-mu
 C01 / C03 / C07 / C09 / C10 / C14 / C16 / C17: calls with a freshly built spec, calls re-using one
 spec object, cache floods with distinct path strings (one step floods 10 050 at once to overflow
 the path memo), PATH_STAR toggles, registrations of throw-away classes on the module-level registry
-and of a meaningful handler on a Glommer, interleaved in a generated order.
+and of a meaningful handler on a Glommer, interleaved in a generated order.  'registry' pool entries
+are a custom spec that asks scope[TargetRegistry].get_handler(op, target, raise_exc=False) for one of
+iterate / get / keys / assign / delete on a type with or without such a handler, and calls that need
+that handler ([T], Coalesce(Sum(), default=), Iter, Group, a path, '*', '**', the custom spec asking
+with raise_exc=True); the probe-sandwich shape puts the probe before the call that needs the handler.
+'pathkw' entries pass a caller-owned path= list to dict specs of tuple chains / T call steps / Coalesces,
+'optdefaults' entries are Match dict patterns with 3-5 absent Optional keys (plain and failing defaults);
+the repeat-inputs shape evaluates them again with the very same input objects.
 
 Oracles
   frame       before/after every call the structure-and-identity snapshot of the target, of the spec
-              and of the caller's scope mapping is identical
+              and of the caller's scope mapping is identical; so is the caller's path= list
   history     every call's canonical outcome (value or error class + message) equals the outcome of the
               same pair, under the same PATH_STAR value and the same registrations, evaluated FIRST in
               a pristine process (vf/cold.py: a fresh interpreter that has imported glom and never
               called it forks one child per reference evaluation)
+  hash seed   ('optdefaults' entries) the outcome - key order of the result dict and which error included -
+              also equals that of a pristine process running under another PYTHONHASHSEED
   fresh       two evaluations of one spec object return containers that are not the same object
 """
 import atexit
@@ -23,7 +32,8 @@ from hypothesis import strategies as st
 
 import glom
 import glom.core
-from glom import Match, Glommer, T, Coalesce
+from glom import Match, Glommer, T, Coalesce, Sum, Iter, Optional
+from glom.core import TargetRegistry, UnregisteredTarget
 from glom.grouping import Group
 
 from ..runner import Sub, Mismatch, HarnessBug
@@ -36,8 +46,9 @@ warnings.filterwarnings('ignore', message=".*have changed behavior in glom versi
 
 PROPERTY = 'C06'
 RULE = ('histories of 3-12 steps over a pool of 2-4 (target, spec) pairs; steps: call / call-same-spec-object / flood n / '
-        'flood 10050 / toggle PATH_STAR / register / Glommer register + call. Non-trivial = >= 3 steps with, before a compared '
-        'call, a repeat of the same spec object, a cache flood or a toggle.')
+        'flood 10050 / toggle PATH_STAR / register / Glommer register + call; pool entries include a custom spec probing '
+        'get_handler(op, target, raise_exc=False) and calls needing that handler. Non-trivial = >= 3 steps with, before a compared '
+        'call, a repeat of the same spec object, a cache flood, a toggle or a registry probe.')
 ASSUMPTIONS = [
     'the pristine reference is a forked child of a fresh interpreter that imported glom but never called it (vf/cold.py)',
     'outcomes are compared canonically: structure with types and sharing pattern, error class and message with addresses stripped',
@@ -52,8 +63,160 @@ def custom_get(obj, key):
 # ---------------------------------------------------------------------------
 # pool entries: deterministic builders shared with the cold server
 
-def build_entry(kind, r):
-    """(target, spec, kwargs) - a pure function of the recipe"""
+class HandlerProbe(object):
+    """custom specifier type in the style of docs/custom_spec_types.rst: asks the registry of the running call for the
+    handler of one operation on its target.  strict=False is the documented "or False if raise_exc=False" form of
+    TargetRegistry.get_handler, strict=True the default one ("raising UnregisteredTarget if no handler can be found").
+    It reads, and changes nothing: a non-mutating spec."""
+
+    def __init__(self, op, strict):
+        self.op = op
+        self.strict = strict
+
+    def glomit(self, target, scope):
+        registry = scope[TargetRegistry]
+        if self.strict:
+            try:
+                handler = registry.get_handler(self.op, target)
+            except UnregisteredTarget:
+                return ['UnregisteredTarget']       # (not its message: that lists every type registered so far)
+        else:
+            handler = registry.get_handler(self.op, target, raise_exc=False)
+            if handler is False:
+                return ['no-handler']
+        out = ['handler', getattr(handler, '__name__', type(handler).__name__)]
+        if self.op in ('iterate', 'keys'):
+            out.append(list(handler(target)))
+        return out
+
+    def __repr__(self):
+        return 'HandlerProbe(%r, strict=%r)' % (self.op, self.strict)
+
+
+# targets of the 'registry' entries are instances of classes made for the one case (one class per tag and history; the
+# cold reference makes its own): what an earlier CASE left in the worker's registry memo cannot reach them, so a
+# failing history fails again when it is replayed alone
+REG_TYPES = {
+    'opaque': (tg.Slots, None),                 # attributes only: not iterable, no __dict__
+    'intsub': (int, 5),
+    'strsub': (str, 'ab'),
+    'listsub': (list, [1, 2]),
+    'tuplesub': (tuple, (1, 2)),
+    'dictsub': (dict, {'a': 1, 'b': 2}),
+}
+REG_OPS = ['iterate', 'get', 'keys', 'assign', 'delete']
+REG_GET_PATH = {'opaque': 'a', 'intsub': 'real', 'strsub': 'zz', 'listsub': '1', 'tuplesub': '0', 'dictsub': 'b'}
+# forms of a call that NEEDS the handler of the operation ('strict': the custom spec asking with raise_exc=True;
+# Assign / Delete themselves are outside this property's domain)
+REG_FORMS = {
+    'iterate': ['list', 'sumdef', 'iterall', 'group', 'strict'],
+    'get': ['path', 'strict'],
+    'keys': ['star', 'starstar', 'strict'],
+    'assign': ['strict'],
+    'delete': ['strict'],
+}
+# generator-side knowledge (the labels are measured from what the probe returns): pairs without a handler on a default
+# registry - non-iterables, objects that are neither mapping nor __dict__-carrying, immutable builtins
+REG_UNHANDLED = [['iterate', 'opaque'], ['iterate', 'intsub'], ['keys', 'opaque'], ['keys', 'intsub'], ['keys', 'listsub'],
+                 ['keys', 'tuplesub'], ['keys', 'strsub'], ['assign', 'intsub'], ['assign', 'tuplesub'], ['assign', 'strsub'],
+                 ['delete', 'intsub'], ['delete', 'tuplesub'], ['delete', 'strsub']]
+
+
+def reg_target(tag, env):
+    cls = env.get(tag)
+    if cls is None:
+        base, _ = REG_TYPES[tag]
+        name = tag.capitalize()
+        if base is tg.Slots:
+            def rep(self):
+                return 'Opaque(a=%r, b=%r)' % (self.a, self.b)
+        else:
+            def rep(self, name=name, base=base):
+                return '%s(%s)' % (name, base.__repr__(self))
+        cls = env[tag] = type(name, (base,), {'__slots__': (), '__repr__': rep})
+    value = REG_TYPES[tag][1]
+    if value is None:
+        obj = cls()
+        obj.a = 1
+        obj.b = [1, 2]
+        return obj
+    return cls(value)
+
+
+def reg_spec(op, form, tag):
+    if form == 'probe':
+        return HandlerProbe(op, False)
+    if form == 'strict':
+        return HandlerProbe(op, True)
+    if form not in REG_FORMS[op]:
+        raise ValueError((op, form))
+    if form == 'list':
+        return [T]
+    if form == 'sumdef':
+        return Coalesce(Sum(), default='n/a')
+    if form == 'iterall':
+        return Iter().all()
+    if form == 'group':
+        return Group([T])
+    if form == 'path':
+        return REG_GET_PATH[tag]
+    return {'star': '*', 'starstar': '**'}[form]
+
+
+def c16_item(v):
+    """C16's recipe items: plain numbers, ['F', n, d] Fractions, ['D', text] Decimals (its ['id', path] placeholder - the
+    address of a spec object, another number in every process - is replaced by the generator below)"""
+    if not isinstance(v, list):
+        return v
+    if v[0] == 'F':
+        from fractions import Fraction
+        return Fraction(v[1], v[2])
+    if v[0] == 'D':
+        from decimal import Decimal
+        return Decimal(v[1])
+    raise ValueError('C16 item %r' % (v,))
+
+
+# ---- a caller-supplied path= list (the call's starting path) over dict specs whose values are tuple chains, T call steps
+# and Coalesces: the list is an input of the call like target and scope mapping
+PATH_TARGET = ['dict', [['a', ['dict', [['b', ['s', 'hello']], ['n', ['i', 3]]]]], ['c', ['list', [['i', 1], ['i', 2], ['i', 1]]]], ['s', ['s', 'str']]]]
+PATH_CHAINS = [['a', 'b'], ['a', 'n'], ['c'], ['a'], ['s'], ['c', '[T]'], ['a', 'b', '[T]']]
+PATH_TCALLS = ['upper', 'count', 'get', 'chain-upper']
+
+
+def path_value(v):
+    if v[0] == 'chain':
+        return tuple([T] if s_ == '[T]' else s_ for s_ in v[1])
+    if v[0] == 'tcall':
+        return {'upper': lambda: T['a']['b'].upper(), 'count': lambda: T['c'].count(1), 'get': lambda: T['a'].get('b', 'dflt'),
+                'chain-upper': lambda: ('a', T['b'].upper())}[v[1]]()
+    if v[0] == 'coalesce':
+        return Coalesce('zz', T['nope']) if v[1] == 'fail' else Coalesce('zz', 'c')
+    if v[0] == 'plain':
+        return v[1]
+    raise ValueError(v)
+
+
+# ---- absent Optional keys of a Match dict pattern with defaults (plain values, T defaults that fail on the target)
+OPT_NAMES = ['alpha', 'beta', 'gamma', 'delta', 'epsilon', 'zeta', 'eta', 'theta', 'iota', 'kappa', 'k1', 'k2', 'x', 'y']
+
+
+def opt_pattern(keys):
+    pat = {}
+    for name, d in keys:
+        pat[Optional(name, default=(T[d[1]] if d[0] == 't' else d[1]))] = object
+    return Match(pat)
+
+
+def build_entry(kind, r, env=None):
+    """(target, spec, kwargs) - a pure function of the recipe (env: the classes made for the running history)"""
+    if kind == 'pathkw':
+        spec = dict((name, path_value(v)) for name, v in r['values'])
+        return tg.build(PATH_TARGET).obj, spec, {'path': list(r['start'])}
+    if kind == 'optdefaults':
+        return dict((k_, 7) for k_ in r['present']), opt_pattern(r['keys']), {}
+    if kind == 'registry':
+        return reg_target(r['type'], {} if env is None else env), reg_spec(r['op'], r['form'], r['type']), {}
     if kind == 'c03':
         return tg.build(r['target']).obj, c03.build(r['spec'], []), {}
     if kind == 'c01':
@@ -67,7 +230,7 @@ def build_entry(kind, r):
     if kind == 'c14':
         return c14.build_graph(r['graph']).obj, '.'.join(r['segs']), {}
     if kind == 'c16':
-        return list(r['items']) or [4], Group(c16.build(r['tree'])), {}
+        return [c16_item(v) for v in r['items']] or [4], Group(c16.build(r['tree'])), {}
     if kind == 'c17':
         return list(r['source']['items']), c17.build_iter(r).all(), {}
     if kind == 'c07':
@@ -94,8 +257,61 @@ def build_entry(kind, r):
     raise ValueError(kind)
 
 
+def gen_registry(draw, pair=None, probe=None):
+    op, tag = pair or (draw(st.sampled_from(REG_UNHANDLED)) if draw(st.booleans()) else
+                       [draw(st.sampled_from(REG_OPS)), draw(st.sampled_from(sorted(REG_TYPES)))])
+    if probe is None:
+        probe = draw(st.booleans())
+    form = 'probe' if probe else draw(st.sampled_from(REG_FORMS[op]))
+    return {'kind': 'registry', 'recipe': {'op': op, 'type': tag, 'form': form}}
+
+
+def gen_pathkw(draw):
+    def value(kinds):
+        k = draw(st.sampled_from(kinds))
+        if k == 'chain':
+            return ['chain', draw(st.sampled_from(PATH_CHAINS))]
+        if k == 'tcall':
+            return ['tcall', draw(st.sampled_from(PATH_TCALLS))]
+        if k == 'plain':
+            return ['plain', draw(st.sampled_from(['a.b', 'c', 's']))]
+        return ['coalesce', k[9:]]
+    # by construction: a value that takes steps (tuple chain / T call) first, then whatever, a failing Coalesce last in half
+    # of the cases (its error reports the path it was reached by)
+    values = [value(['chain', 'tcall'])]
+    for _ in range(draw(st.sampled_from([0, 1, 1, 2]))):
+        values.append(value(['chain', 'tcall', 'plain', 'coalesce-ok', 'coalesce-fail']))
+    if draw(st.booleans()):
+        values.append(['coalesce', 'fail'])
+    names = ['x', 'y', 'z', 'w', 'v']
+    return {'kind': 'pathkw', 'recipe': {'start': draw(st.sampled_from([[], ['start'], ['p', 0]])),
+                                         'values': [[names[i], v] for i, v in enumerate(values)]}}
+
+
+def gen_optdefaults(draw):
+    n = draw(st.sampled_from([3, 4, 5]))
+    names = draw(st.permutations(OPT_NAMES))[:n]
+    failing = draw(st.sampled_from(['none', 'none', 'some', 'all']))
+    keys = []
+    for i, name in enumerate(names):
+        fail = failing == 'all' or (failing == 'some' and (i < 2 or draw(st.booleans())))
+        keys.append([name, ['t', 'missing-' + name] if fail else ['i', i + 1]])
+    if failing == 'some':
+        keys = draw(st.permutations(keys))
+    # at least three keys stay absent
+    present = [name for name in names[3:] if draw(st.booleans())]
+    return {'kind': 'optdefaults', 'recipe': {'keys': [list(k_) for k_ in keys], 'present': present}}
+
+
 def gen_entry(draw):
-    kind = draw(st.sampled_from(['c03', 'c03', 'c01', 'c09', 'c10', 'c14', 'c14', 'c16', 'c17', 'c07', 'c07', 'slotpath', 'slotpath', 'scopelit']))
+    kind = draw(st.sampled_from(['c03', 'c03', 'c01', 'c09', 'c10', 'c14', 'c14', 'c16', 'c17', 'c07', 'c07', 'slotpath', 'slotpath', 'scopelit',
+                                 'scopelit', 'registry', 'pathkw', 'optdefaults']))
+    if kind == 'registry':
+        return gen_registry(draw)
+    if kind == 'pathkw':
+        return gen_pathkw(draw)
+    if kind == 'optdefaults':
+        return gen_optdefaults(draw)
     if kind == 'scopelit' and draw(st.booleans()):
         return {'kind': 'raiser', 'recipe': {'base': draw(st.sampled_from(['ValueError', 'KeyError', 'LookupError', 'RuntimeError']))}}
     if kind == 'scopelit':
@@ -128,7 +344,7 @@ def gen_entry(draw):
         r = c14.gen_read(draw)
     elif kind == 'c16':
         r = c16.gen(draw)
-        r = {'tree': r['tree'], 'items': r['items']}
+        r = {'tree': r['tree'], 'items': [0 if isinstance(v, list) and v[0] == 'id' else v for v in r['items']]}
     elif kind == 'c17':
         r = c17.gen(draw)
         r['source']['endless'] = False
@@ -151,9 +367,31 @@ def gen(draw):
         else:
             steps.append([k])
     # constructed histories (not left to chance): the same call before and after the event that could change it
-    shape = draw(st.sampled_from(['free', 'free', 'free', 'greg-sandwich', 'toggle-sandwich', 'flood-sandwich']))
+    shape = draw(st.sampled_from(['free', 'free', 'probe-sandwich', 'toggle-sandwich', 'repeat-inputs', 'greg-sandwich', 'flood-sandwich', 'toggle-sandwich', 'free']))
     if shape != 'free':
-        if shape == 'greg-sandwich':
+        if shape == 'repeat-inputs':
+            # the same call again with the very same input objects: a caller-supplied path= list handed in twice, a Match
+            # pattern whose absent Optional keys get their defaults
+            if draw(st.booleans()):
+                pool[0] = gen_pathkw(draw)
+                via = draw(st.sampled_from(['same', 'same', 'gsame']))
+            else:
+                pool[0] = gen_optdefaults(draw)
+                via = draw(st.sampled_from(['call', 'same', 'gcall', 'specglom']))
+            core = [[via, 0]] * draw(st.sampled_from([2, 2, 3]))
+            core = [list(c_) for c_ in core]
+        elif shape == 'probe-sandwich':
+            # a custom spec asks the registry with raise_exc=False; the call that needs that handler comes after it
+            # (and, in half of the cases, before it too), through the same registry
+            pair = draw(st.sampled_from(REG_UNHANDLED)) if draw(st.sampled_from(range(3))) else \
+                [draw(st.sampled_from(REG_OPS)), draw(st.sampled_from(sorted(REG_TYPES)))]
+            pool[0] = gen_registry(draw, pair, probe=False)
+            pool[1] = gen_registry(draw, pair, probe=True)
+            via = draw(st.sampled_from([['call', 'same', 'specglom'], ['call', 'same', 'specglom'], ['gcall', 'gsame']]))
+            core = [[draw(st.sampled_from(via)), 1], [draw(st.sampled_from(via)), 0]]
+            if draw(st.booleans()):
+                core.insert(0, [draw(st.sampled_from(via)), 0])
+        elif shape == 'greg-sandwich':
             inner = ['slotsc', [['b', ['i', draw(st.integers(0, 9))]]]]
             pool[0] = {'kind': 'slotpath', 'recipe': {'target': ['slotsc', [['a', inner], ['c', ['s', 'x']]]],
                                                       'path': draw(st.sampled_from(['a.b', 'a', 'c', 'a.zz']))}}
@@ -179,17 +417,24 @@ def gen(draw):
 # ---------------------------------------------------------------------------
 
 _SERVER = []
+_SERVER_B = []
 _FLOOD = [0]
+OTHER_HASHSEED = '4711'     # the checking process and the first reference run under PYTHONHASHSEED=0
 
 
-def server():
+def server(slot=_SERVER, hashseed='0'):
     # one reference server PER PROCESS: a shard forked after the parent has already talked to its server (replay files
     # run in the parent) must not share that server's pipes with its siblings
-    if not _SERVER or _SERVER[0][0] != os.getpid():
-        s = cold.ColdServer(boot.REPO)
-        _SERVER[:] = [(os.getpid(), s)]
+    if not slot or slot[0][0] != os.getpid():
+        s = cold.ColdServer(boot.REPO, hashseed=hashseed)
+        slot[:] = [(os.getpid(), s)]
         atexit.register(s.close)
-    return _SERVER[0][1]
+    return slot[0][1]
+
+
+def server_other_hashseed():
+    """a second pristine interpreter whose str hashes (hence set orders) differ from this process's"""
+    return server(_SERVER_B, OTHER_HASHSEED)
 
 
 def reachable_ids(v):
@@ -216,8 +461,11 @@ def check(recipe, ctx):
     gregs = 0
     g = Glommer()
     same = {}
+    same_kw = {}
     ncalls = {'n': 0}
     last_result = {}
+    env = {}
+    probed = {}             # (registry, op, type tag) -> what the raise_exc=False probe returned, since the last registration
     history_markers = 0
     compared = 0
     interesting = False
@@ -240,15 +488,17 @@ def check(recipe, ctx):
             if k == 'register':
                 cls = type('Throwaway', (object,), {'__slots__': ()})
                 glom.register(cls, get=lambda o, key: None)
+                probed = dict((k_, v_) for k_, v_ in probed.items() if k_[0] != 'module')
                 continue
             if k == 'greg':
                 g.register(tg.Slots, get=custom_get)
                 gregs += 1
                 ctx.label('glommer-register')
+                probed = dict((k_, v_) for k_, v_ in probed.items() if k_[0] != 'glommer')
                 continue
             i = step[1] % len(pool)
             entry = pool[i]
-            target, spec, kw = build_entry(entry['kind'], entry['recipe'])
+            target, spec, kw = build_entry(entry['kind'], entry['recipe'], env)
             reuse = k in ('same', 'gsame', 'specglom')
             via_glommer = k in ('gcall', 'gsame')
             via_spec = k == 'specglom'
@@ -261,13 +511,22 @@ def check(recipe, ctx):
                 if key in same:
                     spec = same[key]
                     history_markers += 1
+                    if entry['kind'] == 'pathkw':
+                        kw = same_kw[key]       # the caller passes the very list again
+                        if not via_spec:
+                            ctx.label('caller-path-reused')
                 else:
                     same[key] = spec
+                    same_kw[key] = kw
             t_snap = tg.snapshot(target)
             s_snap = tg.snapshot(spec)
             s_repr = cold.ADDR.sub('', repr(spec))
             scope_map = kw.get('scope')
             scope_items = list(scope_map.items()) if scope_map is not None else None
+            path_list = kw.get('path') if not via_spec else None
+            path_items = list(path_list) if path_list is not None else None
+            if path_list is not None:
+                ctx.label('caller-path')
             holder = {}
 
             def run():
@@ -290,6 +549,8 @@ def check(recipe, ctx):
                 raise Mismatch('spec-mutated', '%s: %s' % (where, d or 'repr changed'))
             if scope_map is not None and (list(scope_map.items()) != scope_items):
                 raise Mismatch('scope-mutated', '%s: caller scope is now %r' % (where, scope_map))
+            if path_list is not None and (kw.get('path') is not path_list or list(path_list) != path_items):
+                raise Mismatch('path-mutated', '%s: the path= list of the caller, %r, is now %r' % (where, path_items, path_list))
             # ---- history independence
             req = {'kind': entry['kind'], 'recipe': entry['recipe'], 'star': star, 'nreg': 0,
                    'glommer': via_glommer, 'gregs': gregs if via_glommer else 0,
@@ -303,6 +564,30 @@ def check(recipe, ctx):
             if resp['outcome'] != got:
                 raise Mismatch('history-dependent', '%s: outcome %r, but %r when evaluated first in a pristine process '
                                '(PATH_STAR=%r, %d Glommer registrations)' % (where, got, resp['outcome'], star, gregs if via_glommer else 0))
+            # ---- the outcome (the order of a result dict's keys and which error is raised included) is no function of the
+            # interpreter's hash seed either: same pair, pristine process under another PYTHONHASHSEED
+            if entry['kind'] == 'optdefaults':
+                ctx.label('optional-defaults')
+                if sum(1 for _, d_ in entry['recipe']['keys'] if d_[0] == 't') >= 2:
+                    ctx.label('optional-defaults-failing')
+                resp2 = server_other_hashseed().ask(req)
+                if 'outcome' not in resp2:
+                    raise HarnessBug('cold reference (other hash seed) failed: %r' % (resp2,))
+                if resp2['outcome'] != got:
+                    raise Mismatch('hash-seed-dependent', '%s: outcome %r, but %r when evaluated first in a pristine process under '
+                                   'PYTHONHASHSEED=%s (this process: 0)' % (where, got, resp2['outcome'], OTHER_HASHSEED))
+            # ---- (labels) a registry lookup after a custom spec has asked for the same handler with raise_exc=False
+            if entry['kind'] == 'registry':
+                r_ = entry['recipe']
+                pkey = ('glommer' if via_glommer else 'module', r_['op'], r_['type'])
+                if r_['form'] == 'probe':
+                    ctx.label('registry-probe')
+                    history_markers += 1
+                    probed[pkey] = holder.get('v')
+                else:
+                    ctx.label('registry-need')
+                    if pkey in probed:
+                        ctx.label('need-after-probe', 'need-after-probe-' + ('unhandled' if probed[pkey] == ['no-handler'] else 'handled'))
             # ---- a literal in argument position is never handed out itself
             if entry['kind'] == 'scopelit' and 'v' in holder:
                 ctx.label('scope-literal')
@@ -333,5 +618,7 @@ def check(recipe, ctx):
 
 SUBS = [
     Sub('history', check, gen=gen, quick=1600, thorough=4000,
-        floors={'toggle': 0.2, 'flood-small': 0.07, 'flood-big': 0.04, 'glommer-register': 0.12, 'shape-greg-sandwich': 0.03, 'shape-toggle-sandwich': 0.04, 'scope-literal': 0.03}),
+        floors={'toggle': 0.2, 'flood-small': 0.06, 'flood-big': 0.04, 'glommer-register': 0.12, 'shape-greg-sandwich': 0.03, 'shape-toggle-sandwich': 0.04, 'scope-literal': 0.03,
+                'caller-path': 0.08, 'caller-path-reused': 0.008, 'optional-defaults': 0.06, 'optional-defaults-failing': 0.02,
+                'shape-probe-sandwich': 0.04, 'shape-repeat-inputs': 0.03, 'registry-probe': 0.08, 'need-after-probe-unhandled': 0.03, 'need-after-probe-handled': 0.01}),
 ]
